@@ -43,3 +43,52 @@ Theorem C01_hash_mismatch_writes_nothing : forall (hash : list Z -> Z) H plen st
   write_piece hash H plen st secs buf = (r, false) -> r = Ok st.
 Proof. exact hash_mismatch_writes_nothing. Qed.
 Print Assumptions C01_hash_mismatch_writes_nothing.
+
+(* ---- the event loop (Leech.v: message, write-result, snub and disconnect handlers) ---- *)
+From RainV Require Import Leech LeechProofs.
+
+(* for every event history -- any interleaving of peer messages with any field values, block
+   deliveries (true or corrupt bytes, requested or not, duplicated, out of range), write results,
+   snubs, disconnects and connects -- and every observed piece assignment (legal or not), in every
+   reachable state:
+   - every write to storage came from a buffer all of whose blocks were accepted with the true
+     bytes, each block of the piece exactly once (with C01_assembled_is_truth: the buffer is the piece);
+   - a piece is Done (= its bitfield bit, from which have/bitfield messages, stats and resume data
+     are produced) only if it was verified at start or written that way;
+   - at most one piece write is in flight;
+   - a closed peer has no piece downloader *)
+Theorem C01_session_integrity : forall fixed s0 s, init_ok s0 -> reach fixed s0 s ->
+  (forall i g h, In (i, g, h) (s_written s) ->
+     g = true /\ forallb snd h = true /\ covers (nth (Z.to_nat i) (s_blocks s0) []) h) /\
+  (forall n, nth n (s_done s) false = true ->
+     nth n (s_done s0) false = true \/ exists h, In (Z.of_nat n, true, h) (s_written s)) /\
+  (forall n m, nth n (s_writing s) false = true -> nth m (s_writing s) false = true -> n = m) /\
+  (forall r, q_closed (get_p s r) = true -> q_dl (get_p s r) = None).
+Proof. exact session_integrity. Qed.
+Print Assumptions C01_session_integrity.
+
+(* the write result of a buffer that fails the hash check: nothing is written or marked Done, the
+   source is closed and banned ... *)
+Theorem C01_corrupt_source_dropped : forall fixed s src i p a b c g bits asg,
+  s_inflight s = Some (src, i, false) -> q_present (get_p s src) = true -> 0 <= src ->
+  let s' := fst (lstep fixed s [9; p; a; b; c; g] bits asg) in
+  s_written s' = s_written s /\ s_done s' = s_done s /\ In src (s_banned s') /\ q_closed (get_p s' src) = true.
+Proof. exact bad_buffer_step. Qed.
+Print Assumptions C01_corrupt_source_dropped.
+
+(* ... and stays closed through every later event (so, by the last clause above, never downloads again) *)
+Theorem C01_closed_stays_closed : forall fixed s ev bits asg r, CP (get_p s r) -> q_closed (get_p s r) = true ->
+  CP (get_p (fst (lstep fixed s ev bits asg)) r) /\ q_closed (get_p (fst (lstep fixed s ev bits asg)) r) = true.
+Proof. exact closed_stays. Qed.
+Print Assumptions C01_closed_stays_closed.
+
+(* the states the correspondence check walks through (kind 101) are reachable states of this theorem *)
+Theorem C01_codec_states_reachable : forall fixed np P s0 fuel l, reach fixed s0 (last_state fixed fuel np P s0 l).
+Proof. intros. apply last_state_reach. apply reach_init. Qed.
+Print Assumptions C01_codec_states_reachable.
+
+(* hypothesis [blocks_nodup] of [init_ok] holds for what calculateBlocks produces *)
+Theorem C01_blocks_have_distinct_begins : forall bs l bl, 0 < bs -> BlocksProofs.wf_secs l -> l <> [] ->
+  calc_blocks true bs l = Ok bl -> NoDup (map bbeg bl).
+Proof. exact calc_blocks_nodup. Qed.
+Print Assumptions C01_blocks_have_distinct_begins.
